@@ -441,6 +441,15 @@ func ParseContractFile(pkgPath, file string, src []byte, pc *PkgContracts) error
 					break
 				}
 				c := &Clause{kind: "modifies", text: rest, line: it.line, file: file}
+				if i := strings.Index(rest, " if "); i > 0 {
+					// modifies <designators> if <condition over the pre-state>
+					ce, err := parseSpecExpr(strings.TrimSpace(rest[i+4:]))
+					if err != nil {
+						return fmt.Errorf("%s:%d: %v", file, it.line, err)
+					}
+					c.expr = ce
+					rest = strings.TrimSpace(rest[:i])
+				}
 				for _, p := range splitTop(rest, ',') {
 					e, err := parser.ParseExpr(strings.TrimSpace(p))
 					if err != nil {
